@@ -262,3 +262,5 @@ def run(ctx, rep):
         # everything assembled is written: write_all of the assembled buffer inside the and_then closure
         wa = [1 for c in [rb] + F.closures_of(rb) for _, t in c.calls() if re.search(r"Write::write_all$", callee_name(t))]
         rep.check("C10.copy", "assembled buffer written with write_all", len(wa) == 1, loc_of(rb))
+    from rules import iolib
+    iolib.count_rules(ctx, rep, "C10")
